@@ -1,4 +1,380 @@
-import ArvVerif.Model.C16
-import ArvVerif.Model.C16_RunQueue
+/-
+C16 — containers get the cheapest adequate instance type and start in priority order.
+Property theorems only (helpers: Proofs/C16.lean, Proofs/C16_RunQueue.lean).
+
+Part A (ChooseInstanceType): for every table, every iteration order of the Go map (`order.Perm table`),
+every outcome of the error-path sort (`IsAvail table avail`), every container and reserve.
+Part B (runQueue): for every queue snapshot, every outcome of the unstable priority sort
+(`IsSorted entries sorted`), every worker pool (arbitrary state machine `Pool σ`), every
+iteration order `keys` of the unalloc map.
+-/
+import ArvVerif.Proofs.C16
+import ArvVerif.Proofs.C16_RunQueue
 namespace ArvVerif.C16
+
+/-! ## Part A -/
+
+/-- the stated arithmetic range: the mathematical values of the formulas fit in int64 -/
+structure InRange (reserve : Int) (c : Ctr) : Prop where
+  ram : inInt64 ((c.ram + c.keepCacheRAM + reserve) * 100)
+  img : inInt64 (imageSizeSpec c.image)
+  tmp : inInt64 ((tmpCaps c.mounts).foldl (· + ·) 0)
+  scratch : inInt64 (scratchSpec (tmpCaps c.mounts) (imageSizeSpec c.image))
+
+/-- The int64 code computes the formulas of the property text: needRAM = (ram + keepCache + reserve)·100/95
+truncated (= floor for non-negative sums), image estimate = ((n − 80)/42)·64 MiB for a well-formed PDH
+with 122 ≤ n < 2⁶³ and 0 otherwise, scratch = max(Σ tmp, image) + image — whenever these values fit
+in int64. The tmp sum does not depend on the order in which the mounts map is iterated. -/
+theorem C16_arith (reserve : Int) (c : Ctr) (hr : InRange reserve c) :
+    needOf reserve c = needSpec reserve c ∧
+    (0 ≤ c.ram + c.keepCacheRAM + reserve →
+      (needSpec reserve c).ram = (c.ram + c.keepCacheRAM + reserve) * 100 / 95) ∧
+    (∀ n, pdhSize? c.image = some n → 122 ≤ n → (n : Int) < two63 →
+      imageSizeSpec c.image = ((n : Int) - 80) / 42 * 67108864) ∧
+    (∀ n, pdhSize? c.image = some n → n < 122 → imageSizeSpec c.image = 0) ∧
+    (pdhSize? c.image = none → imageSizeSpec c.image = 0) ∧
+    (needSpec reserve c).scratch =
+      max ((tmpCaps c.mounts).foldl (· + ·) 0) (imageSizeSpec c.image) + imageSizeSpec c.image := by
+  refine ⟨?_, ?_, ?_, ?_, ?_, ?_⟩
+  · unfold needOf needSpec
+    rw [needRAM64_eq _ _ _ hr.ram, imageSize64_eq _ hr.img, scratch64_eq _ _ hr.tmp hr.scratch]
+  · intro h
+    unfold needSpec needRAMSpec discountConfiguredRAMPercent
+    rw [Int.tdiv_eq_ediv_of_nonneg (by omega)]
+    rfl
+  · intro n hn h1 h2
+    unfold imageSizeSpec imageSizeOfLen mib64
+    simp only [hn]
+    rw [if_neg (by omega), if_neg (by omega)]
+    rfl
+  · intro n hn h1
+    unfold imageSizeSpec imageSizeOfLen
+    simp only [hn]
+    by_cases hb : two63 ≤ (n : Int)
+    · rw [if_pos hb]
+    · rw [if_neg hb, if_pos h1]
+  · intro hn; unfold imageSizeSpec; simp only [hn]
+  · unfold needSpec scratchSpec
+    simp only
+    by_cases hlt : (tmpCaps c.mounts).foldl (· + ·) 0 < imageSizeSpec c.image
+    · rw [if_pos hlt]; omega
+    · rw [if_neg hlt]; omega
+
+/-- the estimate is independent of the iteration order of the mounts map -/
+theorem C16_mount_order_irrelevant (ms1 ms2 : List Mount) (img : Int) (h : ms1.Perm ms2) :
+    scratch64 (tmpCaps ms1) img = scratch64 (tmpCaps ms2) img := by
+  have hp : (tmpCaps ms1).Perm (tmpCaps ms2) := (h.filter _).map _
+  unfold scratch64
+  simp only [sum64_eq, foldl_add_perm hp]
+
+/-- **Adequate.** Whatever the map iteration order, a returned type is a configured type and satisfies
+every constraint: VCPUs, RAM ≥ (ram + keepCache + reserve)·100/95, scratch ≥ max(Σ tmp, image) + image,
+and the preemptible flag. -/
+theorem C16_adequate (table order avail : List IType) (reserve : Int) (c : Ctr) (it : IType)
+    (hperm : order.Perm table) (hr : InRange reserve c)
+    (h : chooseWith order avail reserve c = .ok it) :
+    it ∈ table ∧ Adequate (needSpec reserve c) it := by
+  obtain ⟨hok, hbest⟩ := chooseWith_ok h
+  rw [← (C16_arith reserve c hr).1]
+  have := chooseLoop_ok_sound (needOf reserve c) order hok
+  rw [hbest] at this
+  exact ⟨hperm.mem_iff.mp this.1, this.2⟩
+
+/-- **Cheapest.** No configured type that satisfies every constraint is strictly cheaper than the
+returned one — for every iteration order of the table. -/
+theorem C16_cheapest (table order avail : List IType) (reserve : Int) (c : Ctr) (it : IType)
+    (hperm : order.Perm table) (hr : InRange reserve c)
+    (hnn : ∀ x ∈ table, 0 ≤ x.ram ∧ 0 ≤ x.vcpus)
+    (h : chooseWith order avail reserve c = .ok it) :
+    ∀ other ∈ table, Adequate (needSpec reserve c) other → it.price ≤ other.price := by
+  obtain ⟨hok, hbest⟩ := chooseWith_ok h
+  have hinv := inv_chooseLoop (needOf reserve c) order (fun x hx => hnn x (hperm.mem_iff.mp hx))
+  obtain ⟨_, _, hmin, _⟩ := hinv.2 hok
+  intro other ho ha
+  rw [← (C16_arith reserve c hr).1] at ha
+  rw [← hbest]
+  exact hmin other (hperm.mem_iff.mpr ho) ha
+
+/-- **Tie-break.** Among equally cheap adequate types the result is one that no other is strictly
+better than in RAM/VCPUs; i.e. it lies in the set `allowed` that the model driver prints. -/
+theorem C16_allowed (table order avail : List IType) (reserve : Int) (c : Ctr) (it : IType)
+    (hperm : order.Perm table) (hnn : ∀ x ∈ table, 0 ≤ x.ram ∧ 0 ≤ x.vcpus)
+    (h : chooseWith order avail reserve c = .ok it) :
+    it ∈ allowed (needOf reserve c) table := by
+  obtain ⟨hok, hbest⟩ := chooseWith_ok h
+  have hinv := inv_chooseLoop (needOf reserve c) order (fun x hx => hnn x (hperm.mem_iff.mp hx))
+  obtain ⟨hmem, had, hmin, hdom⟩ := hinv.2 hok
+  rw [hbest] at hmem had hmin hdom
+  unfold allowed
+  simp only [List.mem_filter, List.all_eq_true, decide_eq_true_eq, Bool.not_eq_true', decide_eq_false_iff_not,
+    and_imp]
+  refine ⟨⟨⟨hperm.mem_iff.mp hmem, had⟩, ?_⟩, ?_⟩
+  · intro y hy hay; exact hmin y (hperm.mem_iff.mpr hy) hay
+  · intro y hy hay hle
+    have h1 := hmin y (hperm.mem_iff.mpr hy) hay
+    have h2 := hle it (hperm.mem_iff.mp hmem) had
+    exact hdom y (hperm.mem_iff.mpr hy) hay (by omega)
+
+/-- **Unsatisfiable / not configured.** An empty table gives ErrInstanceTypesNotConfigured. If no
+configured type satisfies the constraints the result is the error carrying *all* configured types in
+ascending price order — never a type. -/
+theorem C16_unsatisfiable (table order avail : List IType) (reserve : Int) (c : Ctr)
+    (hperm : order.Perm table) (hav : IsAvail table avail) (hr : InRange reserve c) :
+    (table = [] → chooseWith order avail reserve c = .notConfigured) ∧
+    (table ≠ [] → (∀ x ∈ table, ¬ Adequate (needSpec reserve c) x) →
+      chooseWith order avail reserve c = .unsat avail ∧ avail.Perm table ∧
+        avail.Pairwise (fun a b => a.price ≤ b.price)) := by
+  constructor
+  · intro h
+    subst h
+    have : order = [] := List.Perm.eq_nil hperm
+    subst this
+    rfl
+  · intro hne hnone
+    refine ⟨?_, hav.perm, hav.sorted⟩
+    unfold chooseWith
+    have hlen : ¬ order.length = 0 := by
+      intro h0
+      apply hne
+      have : order = [] := List.eq_nil_of_length_eq_zero h0
+      subst this
+      exact List.Perm.eq_nil hperm.symm
+    rw [if_neg hlen]
+    cases hok : (chooseLoop (needOf reserve c) order).1 with
+    | false => rw [if_pos hok]
+    | true =>
+      exfalso
+      have := chooseLoop_ok_sound (needOf reserve c) order hok
+      rw [(C16_arith reserve c hr).1] at this
+      exact hnone _ (hperm.mem_iff.mp this.1) this.2
+
+/-- **Satisfiable.** Conversely, if some configured type satisfies the constraints, the result is a
+type (by `C16_adequate`/`C16_cheapest` a cheapest adequate one), not an error. -/
+theorem C16_satisfiable (table order avail : List IType) (reserve : Int) (c : Ctr) (x : IType)
+    (hperm : order.Perm table) (hr : InRange reserve c)
+    (hnn : ∀ x ∈ table, 0 ≤ x.ram ∧ 0 ≤ x.vcpus)
+    (hx : x ∈ table) (hax : Adequate (needSpec reserve c) x) :
+    ∃ it, chooseWith order avail reserve c = .ok it := by
+  have hinv := inv_chooseLoop (needOf reserve c) order (fun x hx => hnn x (hperm.mem_iff.mp hx))
+  unfold chooseWith
+  have hlen : ¬ order.length = 0 := by
+    intro h0
+    have : order = [] := List.eq_nil_of_length_eq_zero h0
+    subst this
+    have := hperm.mem_iff.mpr hx
+    cases this
+  rw [if_neg hlen]
+  cases hok : (chooseLoop (needOf reserve c) order).1 with
+  | true => exact ⟨_, by rw [if_neg (by rw [hok]; simp)]⟩
+  | false =>
+    exfalso
+    rw [← (C16_arith reserve c hr).1] at hax
+    exact (hinv.1 hok).2 x (hperm.mem_iff.mpr hx) hax
+
+/-- the executable error list is one of the allowed outcomes -/
+theorem C16_avail_exec (table : List IType) : IsAvail table (availSorted table) := availSorted_is table
+
+/-! ## Part B: one runQueue pass -/
+open RQ
+
+/-- **Priority order.** In any pass, for any pool and any outcome of the unstable priority sort: if
+`StartContainer(t, b)` succeeds, then every Locked, not-running container `a` that needs the same
+instance type `t` and has strictly higher priority
+ * was started successfully earlier in the same pass, or
+ * is blocked by its own lingering crunch-run process (`KillContainer(a, "about to start")` returned
+   true earlier in the pass) — the case the code lets through (DESIGN section 8, F8), or
+ * no worker could be created for it (`Create(t)` on its behalf returned false earlier in the pass
+   although the pool was not at quota — the `continue` branch with the upstream TODO). -/
+theorem C16_priority_order {σ : Type} (P : Pool σ) (p0 : σ) (unalloc : Nat → Int) (keys : List Nat)
+    (entries sorted : List Ent) (hs : IsSorted entries sorted)
+    (hnd : entries.Pairwise (fun a b => a.uuid ≠ b.uuid))
+    (pre post : List Ev) (t : Nat) (a b : Ent)
+    (htr : runQueue P p0 unalloc keys sorted = pre ++ Ev.start t b.uuid true :: post)
+    (ha : a ∈ entries) (hb : b ∈ entries)
+    (hal : a.st = .locked) (har : a.running = false) (hty : a.ty = t) (hpr : b.prio < a.prio) :
+    Ev.start a.ty a.uuid true ∈ pre ∨ Ev.kill true a.uuid true ∈ pre ∨
+      Ev.create a.uuid a.ty false ∈ pre := by
+  unfold runQueue at htr
+  have hnd' : sorted.Pairwise (fun a b => a.uuid ≠ b.uuid) :=
+    (List.Perm.pairwise_iff (fun h => uuid_ne_symm h) hs.perm).mpr hnd
+  rcases append_split htr with ⟨post', h1, _⟩ | ⟨pre', _, h2⟩
+  · exact loop_priority P sorted _ hs.desc hnd' pre post' t b.uuid h1 a b
+      (hs.perm.mem_iff.mpr ha) (hs.perm.mem_iff.mpr hb) rfl hal har hty hpr
+  · exfalso
+    exact finish_noStart _ _ _ (Ev.start t b.uuid true) (by rw [h2]; simp) t b.uuid true rfl
+
+/-- With no lingering processes and no failed Create in the pass, the order is strict: every Locked
+higher-priority container of the same type was started before. -/
+theorem C16_priority_order_strict {σ : Type} (P : Pool σ) (p0 : σ) (unalloc : Nat → Int) (keys : List Nat)
+    (entries sorted : List Ent) (hs : IsSorted entries sorted)
+    (hnd : entries.Pairwise (fun a b => a.uuid ≠ b.uuid))
+    (hnolinger : ∀ u, Ev.kill true u true ∉ runQueue P p0 unalloc keys sorted)
+    (hcreate : ∀ u t, Ev.create u t false ∉ runQueue P p0 unalloc keys sorted)
+    (pre post : List Ev) (t : Nat) (a b : Ent)
+    (htr : runQueue P p0 unalloc keys sorted = pre ++ Ev.start t b.uuid true :: post)
+    (ha : a ∈ entries) (hb : b ∈ entries)
+    (hal : a.st = .locked) (har : a.running = false) (hty : a.ty = t) (hpr : b.prio < a.prio) :
+    Ev.start a.ty a.uuid true ∈ pre := by
+  rcases C16_priority_order P p0 unalloc keys entries sorted hs hnd pre post t a b htr ha hb hal har hty hpr
+    with h | h | h
+  · exact h
+  · exact (hnolinger a.uuid (by rw [htr]; exact List.mem_append_left _ h)).elim
+  · exact (hcreate a.uuid a.ty (by rw [htr]; exact List.mem_append_left _ h)).elim
+
+/-- **The `dontstart` latch.** Once a StartContainer on instance type `t` has failed, no further
+StartContainer on `t` is attempted in the pass (so no lower-priority container of that type can
+sneak in ahead). -/
+theorem C16_dontstart_latch {σ : Type} (P : Pool σ) (p0 : σ) (unalloc : Nat → Int) (keys : List Nat)
+    (sorted : List Ent) (pre post : List Ev) (t u : Nat)
+    (htr : runQueue P p0 unalloc keys sorted = pre ++ Ev.start t u false :: post) :
+    ∀ ev ∈ post, ∀ u' r, ev ≠ Ev.start t u' r := by
+  unfold runQueue at htr
+  rcases append_split htr with ⟨post', h1, h2⟩ | ⟨pre', _, h2⟩
+  · intro ev hev u' r he
+    rw [h2] at hev
+    rcases List.mem_append.mp hev with h | h
+    · exact loop_failLatch P sorted _ pre post' t u h1 ev h ⟨u', r, he⟩
+    · exact finish_noStart _ _ _ ev h t u' r he
+  · exfalso
+    exact finish_noStart _ _ _ (Ev.start t u false) (by rw [h2]; simp) t u false rfl
+
+/-- **Over-quota unlock of the tail.** When the pass stops at position i of the priority order
+(`overquota = sorted[i:]`):
+ 1. `overquota` is a suffix of the priority order;
+ 2. the containers unlocked in the pass are exactly the Locked ones in `overquota`;
+ 3. hence no Locked container is unlocked while a strictly lower-priority Locked one keeps its lock;
+ 4. the pass stops early only after the pool has answered `AtQuota() = true`. -/
+theorem C16_overquota_unlock_tail {σ : Type} (P : Pool σ) (p0 : σ) (unalloc : Nat → Int) (keys : List Nat)
+    (entries sorted : List Ent) (hs : IsSorted entries sorted) :
+    (∃ kept, sorted = kept ++ (loop P sorted (initRQ p0 unalloc)).2.2) ∧
+    (∀ u, Ev.unlock u ∈ runQueue P p0 unalloc keys sorted ↔
+        ∃ e ∈ (loop P sorted (initRQ p0 unalloc)).2.2, e.st = .locked ∧ e.uuid = u) ∧
+    (entries.Pairwise (fun a b => a.uuid ≠ b.uuid) →
+      ∀ a b, a ∈ entries → b ∈ entries → a.st = .locked → b.st = .locked → b.prio < a.prio →
+        Ev.unlock a.uuid ∈ runQueue P p0 unalloc keys sorted →
+        Ev.unlock b.uuid ∈ runQueue P p0 unalloc keys sorted) ∧
+    ((loop P sorted (initRQ p0 unalloc)).2.2 ≠ [] → ∃ p, (P.atQuota p).1 = true) := by
+  obtain ⟨_, _, ⟨kept, hk⟩, hul, hq⟩ := loop_basic P sorted (initRQ p0 unalloc)
+  have hiff : ∀ u, Ev.unlock u ∈ runQueue P p0 unalloc keys sorted ↔
+      ∃ e ∈ (loop P sorted (initRQ p0 unalloc)).2.2, e.st = .locked ∧ e.uuid = u := by
+    intro u
+    unfold runQueue
+    rw [List.mem_append, mem_finish]
+    constructor
+    · rintro (h | ⟨_, ⟨e, he, h1, h2⟩ | ⟨t, _, _, h2⟩⟩)
+      · obtain ⟨e, rest', ht, h1, h2⟩ := hul u h
+        exact ⟨e, by rw [ht]; exact List.mem_cons_self, h1, h2⟩
+      · injection h2 with h2; exact ⟨e, he, h1, h2.symm⟩
+      · cases h2
+    · rintro ⟨e, he, h1, h2⟩
+      right
+      refine ⟨List.ne_nil_of_mem he, Or.inl ⟨e, he, h1, by rw [h2]⟩⟩
+  refine ⟨⟨kept, hk⟩, hiff, ?_, hq⟩
+  intro hnd a b ha hb hal hbl hpr hua
+  have hnd' : sorted.Pairwise (fun a b => a.uuid ≠ b.uuid) :=
+    (List.Perm.pairwise_iff (fun h => uuid_ne_symm h) hs.perm).mpr hnd
+  obtain ⟨e, he, _, heu⟩ := (hiff a.uuid).mp hua
+  have hes : e ∈ sorted := by rw [hk]; exact List.mem_append_right _ he
+  have hea : e = a := eq_of_uuid_eq hnd' hes (hs.perm.mem_iff.mpr ha) heu
+  subst hea
+  have hbs : b ∈ sorted := hs.perm.mem_iff.mpr hb
+  rw [hk] at hbs
+  rcases List.mem_append.mp hbs with h | h
+  · -- b before the break position: then its priority is at least e's
+    have hdesc := hs.desc
+    rw [hk] at hdesc
+    have := (List.pairwise_append.mp hdesc).2.2 b h e he
+    omega
+  · exact (hiff b.uuid).mpr ⟨b, h, hbl, rfl⟩
+
+/-- **Idle-worker shutdown.** Shutdown is requested only when the pass stopped at quota, once per
+instance type that still has unallocated workers after the containers ahead of the stop position
+were mapped onto them. -/
+theorem C16_idle_shutdown {σ : Type} (P : Pool σ) (p0 : σ) (unalloc : Nat → Int) (keys : List Nat)
+    (sorted : List Ent) (t : Nat) :
+    Ev.shutdown t ∈ runQueue P p0 unalloc keys sorted ↔
+      (loop P sorted (initRQ p0 unalloc)).2.2 ≠ [] ∧ t ∈ keys ∧
+        1 ≤ (loop P sorted (initRQ p0 unalloc)).1.unalloc t := by
+  unfold runQueue
+  rw [List.mem_append, mem_finish]
+  constructor
+  · rintro (h | ⟨hne, ⟨e, _, _, h2⟩ | ⟨t', ht', h1, h2⟩⟩)
+    · obtain ⟨e, _, hown, _⟩ := (loop_basic P sorted (initRQ p0 unalloc)).1 _ h
+      exact hown.elim
+    · cases h2
+    · injection h2 with h2; subst h2; exact ⟨hne, ht', h1⟩
+  · rintro ⟨hne, ht, h1⟩
+    exact Or.inr ⟨hne, Or.inr ⟨t, ht, h1, rfl⟩⟩
+
+/-- the executable sort is one of the allowed outcomes of `sort.Slice` -/
+theorem C16_sort_exec (entries : List Ent) : IsSorted entries (sortEnts entries) := by
+  refine ⟨List.mergeSort_perm _ _, ?_⟩
+  have := List.pairwise_mergeSort (le := geP)
+    (by intro a b c; simp only [geP, decide_eq_true_eq]; omega)
+    (by intro a b; simp only [geP, Bool.or_eq_true, decide_eq_true_eq]; omega) entries
+  exact this.imp (by intro a b h; simpa [geP] using h)
+
+/-! ## Non-vacuity: concrete instances of the hypotheses, and witnesses of the stated exceptions -/
+
+def exA : IType := { name := 1, vcpus := 1, ram := 2000, scratch := 10, price := 64, preemptible := false }
+def exB : IType := { name := 2, vcpus := 2, ram := 1000, scratch := 10, price := 64, preemptible := false }
+def exC : IType := { name := 3, vcpus := 4, ram := 4000, scratch := 10, price := 128, preemptible := false }
+def exCtr : Ctr :=
+  { vcpus := 1, ram := 900, keepCacheRAM := 40, preemptible := false, image := [],
+    mounts := [⟨tmpKind, 7⟩, ⟨[120], 99⟩] }
+
+example : InRange 10 exCtr := ⟨by decide, by decide, by decide, by decide⟩
+example : ∀ x ∈ [exA, exB, exC], 0 ≤ x.ram ∧ 0 ≤ x.vcpus := by decide
+/-- (900 + 40 + 10)·100/95 = 1000: exB is an exact fit; only the `tmp` mount counts -/
+example : needOf 10 exCtr = { vcpus := 1, ram := 1000, scratch := 7, preemptible := false } := by decide
+/-- equal price, incomparable specs: the map order decides (both results are in `allowed`) -/
+example : chooseWith [exA, exB, exC] [] 10 exCtr = .ok exA := by decide
+example : chooseWith [exC, exB, exA] [] 10 exCtr = .ok exB := by decide
+example : allowed (needOf 10 exCtr) [exA, exB, exC] = [exA, exB] := by decide
+/-- one byte more RAM and exB no longer fits -/
+example : chooseWith [exC, exB, exA] [] 10 { exCtr with ram := 901 } = .ok exA := by decide
+example : chooseWith [exA, exB, exC] [exA, exB, exC] 10 { exCtr with vcpus := 5 } = .unsat [exA, exB, exC] := by
+  decide
+example : IsAvail [exC, exA, exB] [exA, exB, exC] := ⟨by decide, by decide⟩
+example : chooseWith [] [] 10 exCtr = .notConfigured := by decide
+/-- a well-formed PDH of a 3-block image manifest: 3 · 64 MiB, needed twice -/
+example : imageSize64 ((List.replicate 32 97) ++ [43, 50, 48, 54]) = 201326592 := by decide
+example : scratch64 [7] 201326592 = 402653184 := by decide
+/-- the quirk behind the non-negativity hypothesis: a free type with negative RAM is compared with the
+zero-valued `best` and skipped although it is adequate for a (nonsensical) negative request -/
+example : chooseWith [{ exA with price := 0, ram := -1 }] [] 0 { exCtr with ram := -100, keepCacheRAM := 0 } =
+    .unsat [] := by decide
+
+def exEnts : List Ent :=
+  [ { uuid := 1, prio := 5, st := .locked, ty := 0, running := false },
+    { uuid := 2, prio := 4, st := .locked, ty := 0, running := false },
+    { uuid := 3, prio := 3, st := .queued, ty := 0, running := false } ]
+def exStub : Stub :=
+  { quota := 1, canCreate := 9, created := 0, idle := fun _ => 1, mode := fun _ => .byIdle,
+    lingering := fun _ => false }
+
+example : IsSorted exEnts.reverse exEnts := ⟨by decide, by decide⟩
+example : exEnts.Pairwise (fun a b => a.uuid ≠ b.uuid) := by decide
+/-- 1 starts on the idle worker; a worker is created for 2 but its start fails (latch); the pool is
+now at quota, so the pass stops at the Queued container 3 -/
+example : runQueue stubPool exStub (fun _ => 1) [0] exEnts =
+    [.kill true 1 false, .start 0 1 true, .create 2 0 true, .kill true 2 false, .start 0 2 false] := by decide
+/-- at quota from the start: the head is unlocked in the loop and again with the rest of the tail -/
+example : runQueue stubPool { exStub with quota := 0 } (fun _ => 0) [0] exEnts =
+    [.unlock 1, .unlock 1, .unlock 2] := by decide
+/-- witness of the lingering-process exception (F8): 2 starts although 1 (higher priority, same
+type, Locked) has not been started — 1 waits for its previous crunch-run to exit -/
+example : runQueue stubPool { exStub with lingering := fun u => u == 1, quota := 9 } (fun _ => 2) [0] exEnts =
+    [.kill true 1 true, .kill true 2 false, .start 0 2 true, .kill false 3 false, .lockgo 3] := by decide
+/-- witness of the Create exception: a pool whose Create fails once and then succeeds lets 2 start
+while 1 has no worker (the `continue` branch does not set the latch) -/
+def flakyPool : Pool Nat where
+  atQuota := fun n => (false, n)
+  create := fun _ n => (decide (1 ≤ n), n + 1)
+  kill := fun _ _ n => (false, n)
+  start := fun _ _ n => (true, n)
+example : runQueue flakyPool 0 (fun _ => 0) [0] exEnts =
+    [.create 1 0 false, .create 2 0 true, .kill true 2 false, .start 0 2 true, .kill false 3 false, .lockgo 3] := by
+  decide
+
 end ArvVerif.C16
